@@ -103,6 +103,30 @@ fn main() {
                 }
             }
         }
+        Some("decode") => {
+            // fv decode <hex> [flipbit]: show the independent and the crate's reading of a file
+            let mut b = fv::util::unhex(&args[2]);
+            if let Some(bit) = args.get(3).and_then(|s| s.parse::<usize>().ok()) {
+                b[bit / 8] ^= 0x80 >> (bit % 8);
+            }
+            match fv::refdec::decode_partial(&b, &fv::refdec::Cfg::LENIENT) {
+                Ok((d, e)) => {
+                    println!("refdec: info={:?} first_frame={} err={:?}", d.info, d.first_frame, e);
+                    for f in &d.frames {
+                        println!("  frame off={} len={} bs={} chan_code={} num={} subs={:?}", f.offset, f.len, f.bs, f.chan_code, f.number, f.subframes);
+                    }
+                    println!("  pcm={:?}", d.pcm);
+                }
+                Err(e) => println!("refdec: {e}"),
+            }
+            println!("strict: {:?}", fv::refdec::decode_file(&b, &fv::refdec::Cfg::STRICT).map(|_| ()));
+            let r = fv::util::guarded(|| fv::codec::decode_with(std::io::Cursor::new(&b), fv::codec::ReaderKind::Sample, 4096));
+            match r {
+                Ok(Ok(d)) => println!("crate: {}ch err={:?} samples={:?}", d.channels, d.err, d.samples),
+                Ok(Err(e)) => println!("crate: open error {e}"),
+                Err(p) => println!("crate: panic {:?}", p),
+            }
+        }
         _ => {
             eprintln!("usage: fv run <ID> --tier quick|thorough --seed N --out FILE | fv replay FILE");
             std::process::exit(2);
